@@ -83,6 +83,17 @@ def finish_proc(p, timeout):
 
 PAT_STALE = 'stale_value_during_inflight_delete'
 PAT_CLOSE_PANIC = 'delete_racing_close_panics_in_field_set_save'
+PAT_CLOSE_DEADLOCK = 'delete_racing_close_deadlocks_on_index_lock'
+
+
+def close_delete_deadlock(dump):
+    """the watchdog's goroutine dump shows the lock cycle of the known finding: Shard.Close -> tsi1 Index.Close holds Index.mu and waits in
+    LogFile.Close for the file-set references to drain; a range delete holds such a reference (DeleteSeriesRangeWithPredicate retains the
+    file set for its duration) and waits for Index.mu in Index.DropSeries (function names, not line numbers)"""
+    blocks = dump.split('\n\ngoroutine ')
+    closer = any('tsi1.(*LogFile).Close' in b and 'tsi1.(*Index).Close' in b and 'tsdb.(*Shard).closeNoLock' in b for b in blocks)
+    deleter = any('tsi1.(*Index).DropSeries' in b and 'tsm1.(*Engine).deleteSeriesRange' in b and '.Lock' in b for b in blocks)
+    return closer and deleter
 
 
 def validate(ctx, path, tag, cfg='TraceTSMEngine.cfg'):
@@ -246,6 +257,18 @@ def run(ctx):
         rc = finish_proc(p, 2400)
         err = open(out + '.err').read()
         tag = 'race' if i < 0 else f'n{i}'
+        if (rc == 3 or rc is None) and close_delete_deadlock(err):
+            # known finding: the goroutine dump itself shows the lock cycle (no reproduction needed: it is not a matter of time)
+            ctx.traces_validated += 1
+            stats['recorder_stalls'] = stats.get('recorder_stalls', 0) + 1
+            ctx.divergences.append({'case': {'mode': 'stall', 'seed': seed, 'race': i < 0},
+                                    'result': {'step': -1, 'patterns': [PAT_CLOSE_DEADLOCK],
+                                               'msg': 'Shard.Close and a concurrent range delete block each other for ever (goroutine dump of the '
+                                                      'watchdog): ' + '\n\ngoroutine '.join(b for b in err.split('\n\ngoroutine ')
+                                                                                            if 'LogFile).Close' in b or 'Index).DropSeries' in b)[:5000]}})
+            if i >= 0 and os.path.exists(out):
+                files.append((tag, out))     # the traces completed before the stall are still validated
+            continue
         if rc == 3 or rc is None:
             # stall: only a reproduced one counts
             out2, p2 = record(ctx, race_bin if i < 0 else binary, seed, sz['race_traces'] if i < 0 else sz['traces'],
